@@ -64,6 +64,9 @@ def run_lab_case(case, R, judge, classify, nontrivial, hits):
     R.count('store-calls-observed', sum(1 for e in lab.events if e[1] == 'store'))
     R.count('histories/' + cfg.get('backend', 'dict'))
     R.count('greenlet-crashes-seen', len(lab.crashes))
+    undrained = getattr(H, 'timers_left', None) is not None or bool(getattr(H, 'parked_left', 0))
+    if undrained:
+        R.count('histories-not-fully-drained')
     hits(lab, H, R)
     R.observe('interleaving', interleaving_of(lab))
     R.observe('decision-list', tuple(lab.decisions))
@@ -71,13 +74,18 @@ def run_lab_case(case, R, judge, classify, nontrivial, hits):
     nt = nontrivial(lab, H)
     if nt is not None:
         R.nontrivial((cfg.get('backend'), nt, L.cfg_tag(lab)))
+    nviol = 0
     for kind, m, detail in judge(lab, H):
+        nviol += 1
         mech = classify(lab, H, kind, m, detail)
         R.violation(mech, '%s (message %s, backend %s)' % (kind, m, cfg.get('backend')),
                     {'kind': kind, 'marker': m, 'detail': detail, 'crashes': sorted(set(lab.crashes)),
                      'decisions': lab.decisions[:80],
                      'events_tail': [ev for ev in lab.events if m is None or m in repr(ev)
                                      or ev[1] in ('greenlet_crash', 'store_exc')][-40:]})
+    if undrained and not nviol:
+        # timers were still pending when the run-down was cut: the bounded-progress clauses decide nothing here
+        R.inconclusive('history not fully drained: timers still pending after the run-down (%s)' % cfg.get('backend'))
     if len(R.samples) < 4 and nt is not None:
         R.sample({'cfg': cfg, 'seed': case['seed'], 'decisions': lab.decisions[:25],
                   'events': [list(map(str, ev[:5])) for ev in lab.events[:40]]})
